@@ -91,6 +91,9 @@ def twin(rng, ctx, prop: str = "C05") -> None:
         order.append(k)
         try:
             for m in readers[k].read(chunk_lists[k][idx[k]]):
+                if m is p1_mon.POISON:
+                    ctx.violation(f"{prop}:returned-list-shared-between-calls", "read() handed back an object that a caller had appended to the list returned by an earlier call", {"twin": True, "chunks": [list(c) for c in chunk_lists], "order": order, "sent": sents})
+                    return
                 got[k].append((bytes(m.as_bytes), m.is_valid is True))
         except Exception as ex:
             raised = ex
@@ -185,7 +188,8 @@ def replay(case: dict, ctx) -> None:
         for k in case["order"]:
             try:
                 for m in readers[k].read(case["chunks"][k][idx[k]]):
-                    got[k].append((bytes(m.as_bytes), m.is_valid is True))
+                    if m is not p1_mon.POISON:
+                        got[k].append((bytes(m.as_bytes), m.is_valid is True))
             except Exception as ex:
                 ctx.violation(f"C05:read-raised:{p1_mon.where(ex)}", repr(ex), case)
             idx[k] += 1
